@@ -3,7 +3,7 @@
 //! is compared, and (small generators) the state image after every k-th step.
 
 use super::{drive, Only};
-use crate::drive::{gen_seed, single_byte_seeds};
+use crate::drive::{gen_seed, single_byte_seeds, special_seeds};
 use crate::specs::*;
 use crate::util::*;
 use crate::with_spec;
@@ -183,10 +183,10 @@ fn case(prop: u32, sub: &str, id: u64, ctx: &Ctx, r: &mut Report) {
                     ("seedrun", 2) => 2100,          // > 2 table cycles, 131 refills
                     ("seedrun", 3) => 600,           // 3 blocks
                     ("seedrun", _) => 64,
-                    ("longrun", 2) => 20_000,
+                    ("longrun", 2) => 140_000,      // > 136 table cycles (counter-width / wrap slips)
                     ("longrun", 3) => 30_000,
                     ("longrun", _) => 4096,
-                    (_, 2) => 100_000,
+                    (_, 2) => 1_200_000,
                     (_, 3) => 300_000,
                     (_, _) => 1 << 22,
                 };
@@ -225,6 +225,22 @@ fn case(prop: u32, sub: &str, id: u64, ctx: &Ctx, r: &mut Report) {
                     if lockstep::<S>(&seeds[k], n, 5, true, sub, id, r) {
                         r.distinct(hkey(&[&S::NAME, &seeds[k]]));
                         r.cov("single_byte_seeds");
+                    }
+                }
+            });
+        }
+        // seeds aimed at special values of one generator (enumerated: id = index)
+        "special" => {
+            let ti = types[(id % types.len() as u64) as usize];
+            let k = (id / types.len() as u64) as usize;
+            with_spec!(ti, S => {
+                let seeds = special_seeds(S::NAME, S::SEED_LEN);
+                // (the all-zero seed of a linear generator is remapped: C08's subject, excluded by C01/C04)
+                if k < seeds.len() && !(S::LINEAR && seeds[k].iter().all(|&b| b == 0)) {
+                    let n = if prop == 2 { 1100 } else if prop == 3 { 300 } else { 64 };
+                    if lockstep::<S>(&seeds[k], n, 1, true, sub, id, r) {
+                        r.distinct(hkey(&[&S::NAME, &seeds[k]]));
+                        r.cov("special_seeds");
                     }
                 }
             });
@@ -293,6 +309,9 @@ pub fn run(prop: u32, ctx: &Ctx, only: Option<&Only>) -> Report {
         let mut k = t as u64;
         while k < nt * max_seed {
             case(prop, "single_byte", k, ctx, r);
+            if k < nt * 64 {
+                case(prop, "special", k, ctx, r);
+            }
             k += ctx.threads as u64;
         }
     }));
@@ -326,5 +345,6 @@ pub fn run(prop: u32, ctx: &Ctx, only: Option<&Only>) -> Report {
         total.floor(&format!("type:{}", TYPE_NAMES[ti]), 10);
     }
     total.floor("single_byte_seeds", 20);
+    total.floor("special_seeds", 4);
     total
 }
